@@ -616,6 +616,9 @@ class Executor:
                 return cc.apply(self, fv, args, kwargs)
         if self.run.depth >= self.max_inline_depth:
             raise OutOfSubset(f'inline depth exceeded at {fi.key}', node)
+        rs = self.contracts.recursive_spec(fi.key) if self.contracts is not None else None
+        if rs is not None and not getattr(fv, '_unfold', False):
+            return self.call_recursive_spec(fv, rs, args, kwargs, node)
         loc = self.bind_args(fv, args, kwargs, node)
         fr = Frame(fi, fi.module, fv.closure, fi.cls)
         fr.locals.update(loc)
@@ -642,6 +645,36 @@ class Executor:
             return ret
         finally:
             self.run.depth -= 1
+
+
+def _call_recursive_spec(self, fv, rs, args, kwargs, node):
+    """A recursive spec function f is an uninterpreted symbol; each call site outside f's own unfolding adds
+    one definitional instance  f(args) == body[recursive calls := f(...)]  (fuel 1)."""
+    arg_kinds, ret_kind = rs
+    loc = self.bind_args(fv, args, kwargs, node)
+    names = [x.arg for x in fv.fi.node.args.args]
+    ts = [P.lift(self, loc[n], k) for n, k in zip(names, arg_kinds)]
+    f = P.ufn('spec_' + fv.fi.qualname, [k.sort() for k in arg_kinds], ret_kind.sort())
+    app = Sym(ret_kind, f(*ts))
+    unfolding = self.run.ghost.setdefault('_unfolding', set())
+    key = fv.fi.key
+    inst = self.run.ghost.setdefault('_spec_inst', set())
+    ikey = (key, tuple(t.sexpr() for t in ts))
+    if key in unfolding or ikey in inst or getattr(self.run, 'in_merge', False):
+        return app
+    inst.add(ikey)
+    unfolding.add(key)
+    try:
+        fv2 = FuncVal(fv.fi, fv.closure, fv.defaults, fv.kwdefaults)
+        fv2._unfold = True
+        body = self.call_func(fv2, [Sym(k, t) for k, t in zip(arg_kinds, ts)], {}, node, force_inline=True)
+    finally:
+        unfolding.discard(key)
+    self.run.assume(app.t == P.lift(self, body, ret_kind))
+    return app
+
+
+Executor.call_recursive_spec = _call_recursive_spec
 
 
 def _as_load(t):
